@@ -1,6 +1,6 @@
 use bytes::{Buf, Bytes};
 use std::future::poll_fn;
-use std::sync::atomic::{AtomicUsize, Ordering};
+use std::sync::atomic::{AtomicBool, AtomicUsize, Ordering};
 use std::sync::Mutex;
 use std::task::Waker;
 use std::{
@@ -365,6 +365,11 @@ impl WriteHalf {
             return Err(io::Error::new(io::ErrorKind::BrokenPipe, "Broken pipe"));
         }
 
+        // Same error a write reports once the RST has removed the socket.
+        if self.flow_control.is_reset() {
+            return Err(io::Error::new(io::ErrorKind::BrokenPipe, "Broken pipe"));
+        }
+
         if !self.flow_control.try_acquire() {
             return Err(io::Error::new(
                 io::ErrorKind::WouldBlock,
@@ -383,6 +388,12 @@ impl WriteHalf {
 
     fn poll_writable(&self, cx: &mut Context<'_>) -> Poll<Result<()>> {
         if self.is_shutdown {
+            return Poll::Ready(Err(io::Error::new(
+                io::ErrorKind::BrokenPipe,
+                "Broken pipe",
+            )));
+        }
+        if self.flow_control.is_reset() {
             return Poll::Ready(Err(io::Error::new(
                 io::ErrorKind::BrokenPipe,
                 "Broken pipe",
@@ -508,6 +519,11 @@ impl BidiFlowControl {
             read: self.write,
         }
     }
+
+    /// The connection was reset by the peer: fail and wake the local writer.
+    pub(crate) fn reset(&self) {
+        self.write.reset();
+    }
 }
 
 /// End-to-end flow control for a single TCP stream direction.
@@ -518,6 +534,8 @@ impl BidiFlowControl {
 pub(crate) struct FlowControl {
     credits: AtomicUsize,
     waker: Mutex<Option<Waker>>,
+    /// Set when the connection was reset; no credit will ever be released.
+    reset: AtomicBool,
 }
 
 impl FlowControl {
@@ -525,7 +543,19 @@ impl FlowControl {
         Self {
             credits: AtomicUsize::new(capacity),
             waker: Mutex::new(None),
+            reset: AtomicBool::new(false),
         }
+    }
+
+    fn reset(&self) {
+        self.reset.store(true, Ordering::Release);
+        if let Some(waker) = self.waker.lock().unwrap().take() {
+            waker.wake();
+        }
+    }
+
+    fn is_reset(&self) -> bool {
+        self.reset.load(Ordering::Acquire)
     }
 
     fn try_acquire(&self) -> bool {
